@@ -187,6 +187,17 @@ def run(tier, seed):
         for ch in ["\ufeff", "\u200b", "\xa0", "\xad", "\u2060", "\x00", "\x7f"]:
             hand += [ch + ok_script, ch + "# header\n\n" + ok_script, ok_script.replace("version", ch + "version"), ok_script.replace("Op(1)", "Op(" + ch + "1)"), ok_script + ch]
         cases += [("hand", h) for h in hand]
+        # every type keyword the vartype rule admits (the bare keyword "array" included) x every place of a declaration or loop header x
+        # a set of offending tokens: the error handler words its message by the context (and the declared type) of the offending token
+        decl = []
+        for ty in ["array", "float", "complex", "int", "str", "bool"]:
+            for bad in [")", "| 1", "= 1", ",", "]", "1 2", "}", "(", "*", "in", "for", "array", '"s" 1', "1 +", "q0 q1", "{p} {q}"]:
+                decl += ["%s x = %s\n" % (ty, bad), "%s x = 1 + %s\n" % (ty, bad), "%s array A =\n    1, %s\n" % (ty, bad), "%s array A =\n    %s\n    1, 2\n" % (ty, bad),
+                         "%s array A[1, 2] =\n    1, 2 %s\n" % (ty, bad), "%s array A[1 %s] =\n    1, 2\n" % (ty, bad), "%s array A %s\n    1, 2\n" % (ty, bad),
+                         "for %s i in %s\n    Op | 0\n" % (ty, bad), "for %s i in [1, %s]\n    Op | 0\n" % (ty, bad), "for %s i in 0:%s\n    Op | 0\n" % (ty, bad),
+                         "%s x %s\n" % (ty, bad), "%s %s = 1\n" % (ty, bad), "Op(%s x) | 0\n" % ty, "%s array array A =\n    1, %s\n" % (ty, bad)]
+        rng.shuffle(decl)
+        cases += [("declaration-error", "name p\nversion 1.0\n" + d) for d in decl[: (220 if quick else len(decl))]]
         nshown = 0
         for tag, text in cases:
             if time.time() > t_end:
